@@ -27,7 +27,7 @@ DIMS = [
     ("response_derives", [None, "Debug", "Serialize,Debug,PartialEq"]),
     ("deprecation", [None, "allow", "warn", "deny", "bogus"]),
     ("visibility", [None, "pub", "crate", "inherited", "private"]),
-    ("custom_scalars_module", [None, "crate::scalars"]),
+    ("custom_scalars_module", [None, "crate::scalars", "::scalars_crate::types"]),
     ("other_variant", [False, True]),
     ("external_enums", [None, ["Role"], ["Role", "Nope"]]),
     ("selected", [None, "First", "SecondOp", "Missing", "third_op", "ThirdOp"]),
